@@ -86,6 +86,12 @@ func DateTimeFromProto(proto *dtpb.DateTime) (DateTime, error) {
 	case dtpb.DateTime_YEAR:
 		l = dtYearLayout
 	}
+	if dateTimeMap[l] <= dtDay {
+		// A partial DateTime without a time has no time zone: keep the calendar
+		// date as written, so that comparisons do not shift it into another day
+		// (or year) of UTC.
+		t = time.Date(t.Year(), t.Month(), t.Day(), 0, 0, 0, 0, time.UTC)
+	}
 	return DateTime{t, l}, nil
 }
 
